@@ -116,6 +116,14 @@ CHECKS = {
                 note="trusted: PyCryptodome AES-GCM, hashlib, layout transcription in mc/builders/envelope.py; reserved bytes and "
                      "zero padding of the header block are excluded (not 'header attributes')",
                 technique="exhaustive enumeration of parameter products and single-byte alterations on the real decrypt path"),
+    "C17": dict(level=MC, ref="DESIGN.md section 4 C17",
+                text="Every ordered forest of key/value entries up to 5-6 entries (all value types) x every distribution over 1-3 "
+                     "key tables x entry order, every boundary value of every type incl. file-object sized strings/arrays, Free "
+                     "entries at every position, competing key tables and file headers over sequence pairs {0,1,2,65535}^2 and a "
+                     "chained second object table are serialised and parsed with the real parser; as_dict() and item access must "
+                     "equal the model tree including Python types.",
+                note="trusted: layout transcription in mc/builders/hyperv.py whose independent decoder reproduces the trees of both "
+                     "repository fixtures; root entries are Node entries"),
 }
 
 PENDING_REASON = "check not built yet in this session (planned in DESIGN.md section 4); not claimed until it runs"
